@@ -786,6 +786,47 @@ pub fn check(sc: &Scenario, env: &mut Env) -> Result<Outcome, HarnessError> {
             out.probe("depth:min-with-faults");
         }
         source_clauses(sc, wi, w, &uv, &visits, &hvisits, &space, glob.is_some(), &matches, &model, min, &mut out);
+        // "isolated": a directory whose own name fails its glob component is discarded by the glob
+        // walk as a tree (C13 has nothing beneath it produced downstream); a fault beneath it is
+        // none of the walk's business, and an error item naming a path beneath it is a fault
+        // reported for something the walk had no reason to touch. (The directory's own read error
+        // stays MAY: walkdir opens a directory when it yields it.)
+        if let Source::Glob { expr, rooted: false } = &w.source {
+            let comps = leading_components(expr);
+            if !comps.is_empty() && !expr.starts_with('.') && !expr.starts_with('$') {
+                let hopeless: Vec<&str> = visits
+                    .iter()
+                    .filter(|v| v.is_dir && is_below(&v.path, &w.base))
+                    .filter(|v| {
+                        let names: Vec<&str> = rel_to(&v.path, &w.base).split('/').collect();
+                        let j = names.len();
+                        // (with a minimum depth, directories above it are never shown to the glob
+                        // walk, which therefore cannot discard them)
+                        j >= min && j <= comps.len() && !comps[j - 1].is_match(lossy(names[j - 1]).as_str())
+                    })
+                    .map(|v| v.path.as_str())
+                    .collect();
+                for e in &uv.es {
+                    if let Some(wp) = e.wp.as_deref() {
+                        if let Some(h) = hopeless.iter().find(|h| is_below(wp, h)) {
+                            out.violate(
+                                "C20",
+                                "err-sound",
+                                wi,
+                                format!(
+                                    "glob {:?}: directory {:?} cannot match its component and is not to be read, yet an error item names {:?} beneath it (kind {})",
+                                    expr, h, wp, e.kind
+                                ),
+                                vec![format!("error:{}", wp)],
+                            );
+                        }
+                    }
+                }
+                if hopeless.iter().any(|h| visits.iter().any(|v| v.fault.is_some() && is_below(&v.path, h))) {
+                    out.probe("fault:beneath-a-directory-its-glob-component-rejects");
+                }
+            }
+        }
         // the stack over it
         let real_layers = w.layers.len() > 1 || !matches!(w.layers.first(), Some(Layer::Fe(t)) if t.is_empty());
         if real_layers {
